@@ -533,3 +533,113 @@ pub fn rx_first_bc_o2_lean() {
     core::mem::forget(r);
     core::mem::forget(d);
 }
+
+// ---- the receiver's walker on long chains (needs the verif_walk_extensions hook) ----
+
+/// Chain of exactly N extensions (N concrete per harness: a symbolic chain length ran CBMC out
+/// of 12 GB): entry k is optional with two data bytes when bit k of `two` is set, data-less
+/// optional otherwise, except that entry `mand` (if < N) is the known non-final mandatory
+/// extension 0x0011; ids, data bytes, final protocol type symbolic; arbitrary tail.  The walker
+/// returns exactly these extensions in order, the protocol type and the bytes walked.
+pub fn walker_chain<const N: usize, const NB: usize>(two: u32, mand: usize) {
+    let ids: [u16; N] = kani::any();
+    let data: [[u8; 2]; N] = kani::any();
+    let ptype: u16 = kani::any();
+    kani::assume(ptype >= 0x600);
+    let mut buf = [0u8; NB];
+    let mut o = 0;
+    let mut k = 0;
+    while k < N {
+        let id = ids[k];
+        let has2 = (two >> k) & 1 == 1;
+        if k == mand {
+            kani::assume(id == 0x0011);
+        } else if has2 {
+            kani::assume((id >> 8) & 0x7 == 2 && id < 0x600);
+        } else {
+            kani::assume((id >> 8) & 0x7 == 1 && id < 0x600);
+        }
+        if k > 0 {
+            buf[o] = (id >> 8) as u8;
+            buf[o + 1] = id as u8;
+            o += 2;
+        }
+        if has2 && k != mand {
+            buf[o] = data[k][0];
+            buf[o + 1] = data[k][1];
+            o += 2;
+        }
+        k += 1;
+    }
+    buf[o] = (ptype >> 8) as u8;
+    buf[o + 1] = ptype as u8;
+    o += 2;
+    let tail = any_len(4);
+    kani::assume(o + tail <= NB);
+    let r = dvb_gse_rust::gse_decap::verif_walk_extensions(&buf[..o + tail], &TestMgr, ids[0]);
+    match &r {
+        Ok((exts, pt, walked)) => {
+            assert!(exts.len() == N, "C13.walker_returns_every_extension_of_the_chain");
+            assert!(*pt == ptype, "C13.walker_returns_the_final_protocol_type");
+            assert!(*walked == o, "C13.walker_consumes_exactly_the_chain");
+            let j = any_len(N - 1);
+            assert!(exts[j].id() == ids[j], "C13.walker_keeps_ids_in_order");
+            if (two >> j) & 1 == 1 && j != mand {
+                assert!(ext_data_len(&exts[j]) == 2 && ext_data_byte(&exts[j], 0) == Some(data[j][0]) && ext_data_byte(&exts[j], 1) == Some(data[j][1]),
+                        "C13.walker_keeps_data");
+            } else {
+                assert!(ext_data_len(&exts[j]) == 0, "C13.walker_keeps_data");
+            }
+            kani::cover!(true, "accepted");
+        }
+        Err(_) => assert!(false, "C13.known_chain_is_accepted"),
+    }
+    core::mem::forget(r);
+}
+
+/// Chain of N data-less optional extensions with an unknown mandatory id at place `bad`.
+pub fn walker_chain_unknown<const N: usize, const NB: usize>(bad: usize) {
+    let ids: [u16; N] = kani::any();
+    let mut buf = [0u8; NB];
+    let mut o = 0;
+    let mut k = 0;
+    while k < N {
+        let id = ids[k];
+        if k == bad {
+            kani::assume(id < 0x100 && id != 0x10 && id != 0x11 && id != 0x20 && id != 0x21);
+        } else {
+            kani::assume((id >> 8) & 0x7 == 1 && id < 0x600);
+        }
+        if k > 0 {
+            buf[o] = (id >> 8) as u8;
+            buf[o + 1] = id as u8;
+            o += 2;
+        }
+        k += 1;
+    }
+    buf[o] = 0x08;
+    buf[o + 1] = 0x00;
+    o += 2;
+    let r = dvb_gse_rust::gse_decap::verif_walk_extensions(&buf[..o], &TestMgr, ids[0]);
+    assert!(matches!(r, Err(true)), "C13.unknown_mandatory_extension_drops_the_packet");
+    kani::cover!(true, "refused");
+    core::mem::forget(r);
+}
+
+#[kani::proof]
+#[kani::unwind(12)]
+pub fn walker_chain_5_mixed() {
+    walker_chain::<5, 24>(0b01010, 5);
+}
+
+#[kani::proof]
+#[kani::unwind(12)]
+pub fn walker_chain_9_unknown_last() {
+    walker_chain_unknown::<9, 24>(8);
+}
+
+#[kani::proof]
+#[kani::unwind(12)]
+pub fn walker_chain_6_unknown_fifth() {
+    walker_chain_unknown::<6, 16>(4);
+}
